@@ -18,6 +18,7 @@ import (
 	"github.com/AdguardTeam/AdGuardDNS/internal/agd"
 	"github.com/AdguardTeam/AdGuardDNS/internal/dnsserver/zzverif/vrt"
 	"github.com/AdguardTeam/AdGuardDNS/internal/dnsserver/zzverif/xsched"
+	"github.com/AdguardTeam/AdGuardDNS/internal/profiledb/internal"
 )
 
 // ---- The backend: the true state that synchronisations deliver. -----------
@@ -292,6 +293,8 @@ type c14Sys struct {
 	discard bool
 	failing bool
 	calls   int
+	// storeFails makes the write of the file cache (full syncs) fail.
+	storeFails bool
 }
 
 type c14Storage struct{ sys *c14Sys }
@@ -311,6 +314,19 @@ func (s *c14Storage) Profiles(_ context.Context, req *StorageProfilesRequest) (*
 	}
 
 	return s.sys.be.response(since), nil
+}
+
+// c14Cache is the file-cache seam of the database: it stores nothing and
+// fails on demand, as a full disk or a removed directory makes the real one.
+type c14Cache struct{ sys *c14Sys }
+
+func (c *c14Cache) Load(context.Context) (*internal.FileCache, error) { return nil, nil }
+func (c *c14Cache) Store(context.Context, *internal.FileCache) error {
+	if c.sys.storeFails {
+		return errors.New("write profilecache.pb: no space left on device")
+	}
+
+	return nil
 }
 
 type c14ErrColl struct{}
@@ -334,6 +350,7 @@ func c14NewSys() *c14Sys {
 	if err != nil {
 		vrt.Fatalf("profiledb.New: %v", err)
 	}
+	db.cache = &c14Cache{sys: sys}
 	sys.db = db
 
 	return sys
@@ -399,6 +416,26 @@ func (sys *c14Sys) apply(e c14Event) (ok bool) {
 		if err := sys.db.Refresh(ctx); err != nil {
 			vrt.Fatalf("refresh: %v", err)
 		}
+		sys.synced = sys.be.clone()
+	case "full-storefail":
+		// A full sync whose data arrives, but whose file-cache write fails
+		// (full disk): Refresh reports the error; what was synchronised is in
+		// force all the same, and later partial syncs continue from it.
+		if sys.db.lastFullSync.IsZero() || !sys.be.mutate(e.Arg) {
+			return false
+		}
+		sys.db.lastFullSync, sys.db.lastFullSyncError = time.Time{}, time.Time{}
+		sys.storeFails = true
+		err := sys.db.Refresh(ctx)
+		sys.storeFails = false
+		if err == nil {
+			vrt.Fatalf("refresh with a failing cache write returned nil")
+		}
+		if sys.db.lastFullSync.IsZero() {
+			// The harness only forces full syncs explicitly.
+			sys.db.lastFullSync = time.Now()
+		}
+		sys.db.lastFullSyncError = time.Time{}
 		sys.synced = sys.be.clone()
 	case "fail-full":
 		// The full-sync interval has elapsed and the full attempt fails; the
@@ -602,6 +639,9 @@ func c14Alphabet(sys *c14Sys) (evs []c14Event) {
 		evs = append(evs, c14Event{Kind: "sync", Arg: m})
 	}
 	evs = append(evs, c14Event{Kind: "full"}, c14Event{Kind: "fail"}, c14Event{Kind: "fail-full"})
+	for _, m := range []string{"p2-delete-toggle", "d1-move", "d1-remove-readd"} {
+		evs = append(evs, c14Event{Kind: "full-storefail", Arg: m})
+	}
 	for i := range c14Lookups {
 		evs = append(evs, c14Event{Kind: "lookup", Idx: i})
 	}
